@@ -49,6 +49,56 @@ func cfg4ordered() chain.Config {
 	return c
 }
 
+// cfg4big: cfg4ordered with stakes in units of 64·min, so that consensus powers straddle 255/256
+// (more than one byte of the power-index key differs) while the MaxValidators cut-off binds.
+func cfg4big() chain.Config {
+	u := 64 * min
+	c := baseCfg()
+	c.Vals = []chain.GenVal{{Key: 0, Stake: 2 * u}, {Key: 1, Stake: 3*u - 1}, {Key: 2, Stake: 4 * u}, {Key: 3, Stake: 5 * u}}
+	c.Accs = []chain.GenAcc{{Key: 0, Balance: 5 * min}, {Key: 1, Balance: 5 * min}, {Key: 2, Balance: 5 * min}, {Key: 3, Balance: 9 * u}, {Key: 4, Balance: 5 * min}, {Key: 5, Balance: 9 * u}}
+	p := *c.Pos
+	p.MaxValidators = 3
+	c.Pos = &p
+	return c
+}
+
+// cfgMinStake3: StakeMinimum = 3·min (more than one unit of consensus power), so a validator
+// slashed below the minimum is force-unstaked while its remaining stake still has power >= 1.
+func cfgMinStake3() chain.Config {
+	c := baseCfg()
+	c.Vals = []chain.GenVal{{Key: 0, Stake: 4 * min}, {Key: 1, Stake: 5 * min}, {Key: 2, Stake: 6 * min}}
+	c.Accs = append(c.Accs, chain.GenAcc{Key: 5, Balance: 9 * min})
+	p := *c.Pos
+	p.MaxValidators, p.StakeMinimum = 2, 3*min
+	c.Pos = &p
+	return c
+}
+
+// cfgJailFast: a window of 1 with MinSignedPerWindow = 1, so a single miss jails; three validators
+// so that several can leave the set in one block and a jailed one can be slashed again.
+func cfgJailFast() chain.Config {
+	c := baseCfg()
+	c.Vals = []chain.GenVal{{Key: 0, Stake: 3*min + 333333}, {Key: 1, Stake: 3 * min}, {Key: 2, Stake: 4 * min}}
+	p := *c.Pos
+	p.Window, p.MinSignedNum, p.MinSignedDen = 1, 1, 1
+	c.Pos = &p
+	return c
+}
+
+// jailFastAlphabet: jailing of one or two validators in one block, slashes of jailed validators.
+func jailFastAlphabet() []Choice {
+	return append(jailAlphabet(),
+		Choice{Label: "miss(k1)", Block: chain.Block{Missed: []int{1}}},
+		Choice{Label: "miss(k0,k1)", Block: chain.Block{Missed: []int{0, 1}}},
+		Choice{Label: "miss(k0)+evidence(k1)", Block: chain.Block{Missed: []int{0}, Evidence: []chain.Evidence{{Val: 1, HeightAgo: 1, Age: time.Second}}}},
+		Choice{Label: "evidence(k0)+evidence(k1)", Block: chain.Block{Evidence: []chain.Evidence{{Val: 0, HeightAgo: 1, Age: time.Second}, {Val: 1, HeightAgo: 1, Age: time.Second}}}},
+		Choice{Label: "miss(k0)+unstake(k1)", Block: chain.Block{Missed: []int{0}, Events: []chain.Event{txE(chain.TxSpec{Msg: "unstake", From: 1})}}},
+		evB("burn(k0,0.3)", chain.Event{Kind: "burn", Who: 0, Sev: "0.3"}),
+		txB("unjail(k1)", chain.TxSpec{Msg: "unjail", From: 1}),
+		Choice{Label: "dt=2s [unjail(k0),unjail(k1)]", Block: chain.Block{DT: 2 * time.Second, Events: []chain.Event{txE(chain.TxSpec{Msg: "unjail", From: 0}), txE(chain.TxSpec{Msg: "unjail", From: 1})}}},
+	)
+}
+
 func cfgMax1() chain.Config {
 	c := baseCfg()
 	p := *c.Pos
@@ -127,18 +177,21 @@ func extraAlphabet() []Choice {
 func richAlphabet() []Choice { return append(stakingAlphabet(), extraAlphabet()...) }
 
 // setAlphabet: events that change who is in the validator set (C05), for 3-4 validators.
-func setAlphabet() []Choice {
+func setAlphabet() []Choice { return setAlphabetU(min) }
+
+// setAlphabetU: the same events with stakes in multiples of u.
+func setAlphabetU(u int64) []Choice {
 	return []Choice{
-		txB("stake(k3,2min)", chain.TxSpec{Msg: "stake", From: 3, Amount: 2 * min}),
-		txB("stake(k3,3min)", chain.TxSpec{Msg: "stake", From: 3, Amount: 3 * min}),
-		txB("stake(k5,4min)", chain.TxSpec{Msg: "stake", From: 5, Amount: 4 * min}),
+		txB(fmt.Sprintf("stake(k3,%d)", 2*u), chain.TxSpec{Msg: "stake", From: 3, Amount: 2 * u}),
+		txB(fmt.Sprintf("stake(k3,%d)", 3*u), chain.TxSpec{Msg: "stake", From: 3, Amount: 3 * u}),
+		txB(fmt.Sprintf("stake(k5,%d)", 4*u), chain.TxSpec{Msg: "stake", From: 5, Amount: 4 * u}),
 		txB("unstake(k0)", chain.TxSpec{Msg: "unstake", From: 0}),
 		txB("unstake(k1)", chain.TxSpec{Msg: "unstake", From: 1}),
 		txB("unstake(k2)", chain.TxSpec{Msg: "unstake", From: 2}),
 		txB("unjail(k0)", chain.TxSpec{Msg: "unjail", From: 0}),
 		txB("unjail(k1)", chain.TxSpec{Msg: "unjail", From: 1}),
 		multiB("[unstake(k0),unstake(k1)]", txE(chain.TxSpec{Msg: "unstake", From: 0}), txE(chain.TxSpec{Msg: "unstake", From: 1})),
-		multiB("[unstake(k1),stake(k3,3min)]", txE(chain.TxSpec{Msg: "unstake", From: 1}), txE(chain.TxSpec{Msg: "stake", From: 3, Amount: 3 * min})),
+		multiB("[unstake(k1),stake(k3,3u)]", txE(chain.TxSpec{Msg: "unstake", From: 1}), txE(chain.TxSpec{Msg: "stake", From: 3, Amount: 3 * u})),
 		{Label: "miss(k0)", Block: chain.Block{Missed: []int{0}}},
 		{Label: "miss(k1)", Block: chain.Block{Missed: []int{1}}},
 		{Label: "miss(k0,k1)", Block: chain.Block{Missed: []int{0, 1}}},
@@ -316,6 +369,8 @@ func posScenarios(id, tier string) []Scenario {
 		return []Scenario{
 			{Name: "2val-rich", Cfg: baseCfg(), Alphabet: richAlphabet(), K: k, D: d, Tail: 1},
 			{Name: "3val-equal-max2", Cfg: cfg3equal(), Alphabet: append(stakingAlphabet(), setAlphabet()...), K: k2, D: d2, Tail: 1},
+			// single miss jails: slashes and burns of an already jailed validator within two deviations
+			{Name: "3val-jail-fast", Cfg: cfgJailFast(), Alphabet: append(stakingAlphabet(), jailFastAlphabet()...), K: k2, D: d2, Tail: 1},
 		}
 	case "C05":
 		k, d := kd(2, 4, 3, 4)
@@ -325,6 +380,9 @@ func posScenarios(id, tier string) []Scenario {
 			{Name: "3val-equal-max2", Cfg: cfg3equal(), Alphabet: setAlphabet(), K: k, D: d, Tail: 1},
 			{Name: "4val-ordered-max3", Cfg: cfg4ordered(), Alphabet: setAlphabet(), K: k, D: d, Tail: 1},
 			{Name: "2val-max1", Cfg: cfgMax1(), Alphabet: setAlphabet(), K: k2, D: d2, Tail: 1},
+			{Name: "4val-big-powers-max3", Cfg: cfg4big(), Alphabet: setAlphabetU(64 * min), K: k2, D: d2, Tail: 1},
+			{Name: "3val-minstake3-max2", Cfg: cfgMinStake3(), Alphabet: setAlphabet(), K: k2, D: d2, Tail: 1},
+			{Name: "3val-jail-fast", Cfg: cfgJailFast(), Alphabet: jailFastAlphabet(), K: k2, D: d2, Tail: 1},
 		}
 	case "C06":
 		k, d := kd(3, 4, 4, 5)
@@ -395,6 +453,8 @@ func posScenarios(id, tier string) []Scenario {
 		for _, c := range c09cfgs() {
 			scs = append(scs, Scenario{Name: fmt.Sprintf("jail-stake=%d", c.Vals[0].Stake), Cfg: c, Alphabet: jailAlphabet(), K: k, D: d, Tail: 1})
 		}
+		k2, d2 := kd(2, 4, 3, 5)
+		scs = append(scs, Scenario{Name: "3val-jail-fast", Cfg: cfgJailFast(), Alphabet: jailFastAlphabet(), K: k2, D: d2, Tail: 1})
 		return scs
 	case "C10":
 		k, d := kd(3, 4, 4, 4)
